@@ -7,6 +7,12 @@ ids = [p['id'] for p in props]
 
 # id -> (level, technique, level text, level note, design_ref)
 CLAIMED = {
+ 'C01': ('exploration', 'deterministic simulation of the chain against scripted parties: injected acceptance draws (crafted generator states) + scripted Target/Proposal tables incl. -inf/+inf/NaN; exact kernel extraction by bisection over the injected draw',
+         'The real MHMarkovChain::step runs against table-driven Target/Proposal stubs (finite values, -inf, +inf, NaN, asymmetric q, zero moves) while the acceptance draw is injected through the public rng field (uniform raw words, the extremes, the three representable draws bracketing the threshold, constructed exact ties). Every step is compared with the reference rule evaluated in the same float type (f64/f32, float and integer states, bitwise state preservation). On random finite spaces the exact acceptance probability of every ordered pair is extracted by bisection and detailed balance, zero-density exclusion and pi P = pi are checked.',
+         'Trusts: the crafted xoshiro256++ state (self-checked against rand at start-up); dyadic table values make all sums exact, generic reals within 16 ulp of the threshold are counted ambiguous and not judged.', '3/C01'),
+ 'C05': ('exploration', 'deterministic simulation against a recording Conditional stub: call-history oracle (order, exactly-once, freshest state) + exact kernel invariance on small joint tables; multi-chain runs under seeded schedules',
+         'The real Gibbs step runs against a recording conditional that returns unique values: per step exactly d calls, each coordinate once, every given equal to the freshest state, the state after the step exactly the returned values, other chains untouched (checked for the multi-chain sampler under W simulated workers). On random joint tables over {0,1,2}^d (d<=4) the one-step kernel is assembled from the true full conditionals evaluated at the given the library actually passed and pi K = pi is checked exactly.',
+         'Trusts: the recording stub; reversed or permuted sweep orders are deliberately not violations (the statement fixes once-each and freshest-state, not the order).', '3/C05'),
  'C07': ('exploration', 'deterministic simulation: bit-equality with the sequential single-worker run under seeded schedules, simulated worker counts, concurrently interleaved samplers and progress mode',
          'Every sampler kind (MH f32/f64/discrete, Gibbs, HMC f32/f64, NUTS f32/f64 on Gaussian and Rosenbrock targets) is built twice from the same inputs and seed and run sequentially (reference), then run() executes under 1..16 simulated pool workers with a scheduling point per transition, 2-3 samplers are interleaved per transition in one process, and run_progress runs on simulated threads/clock: all outputs must be bit-identical to the reference (NUTS progress: shifted by one). Seeds include 0, 2^32, 2^63 and u64::MAX-k; a different seed must change the output once the chain has moved; the seeded initialisers are called from several simulated threads in different orders.',
          'Trusts: shuttle; the work-claiming stub for the rayon pool (cross-checked against real pools on 1/8 of runs); MH proposals seeded by the harness (Proposal::set_seed) count as inputs; default (OS-entropy) construction is outside C07.', '3/C07'),
